@@ -14,3 +14,6 @@ func TestMain(m *testing.M) { vkit.Main(m) }
 func TestConvergence(t *testing.T) {
 	vkit.Check(t, vkit.GenCrdtCase, func(c vkit.CrdtCase) vkit.Result { return vkit.RunCrdtCase(c, vkit.CrdtChecks{State: true}) })
 }
+
+// TestReplicaUnderConcurrency: local operations, merges and reads on one replica at the same time (see vkit/crdtrace.go).
+func TestReplicaUnderConcurrency(t *testing.T) { vkit.Check(t, vkit.GenCrdtRace, vkit.RunCrdtRace) }
